@@ -32,10 +32,11 @@ public:
                  * released while a younger session still reads them.
                  */
                 for (;;) {
-                YK_VPA(YK_LOAD, YK_C_EPOCH, epoch_management::verif_epoch_addr(), 8);
+                    YK_VPA(YK_LOAD, YK_C_EPOCH, epoch_management::verif_epoch_addr(), 8);
                     const Epoch cur_epoch = epoch_management::get_epoch();
                     elem.set_begin_epoch(cur_epoch);
                     std::atomic_thread_fence(std::memory_order_seq_cst);
+                    YK_VPA(YK_LOAD, YK_C_EPOCH, epoch_management::verif_epoch_addr(), 8);
                     if (cur_epoch == epoch_management::get_epoch()) { break; }
                 }
                 token = &(elem);
